@@ -3,6 +3,7 @@
 package main
 
 import (
+	"bytes"
 	"encoding"
 	"encoding/binary"
 	"fmt"
@@ -50,13 +51,16 @@ func step(f func()) (p string) {
 }
 
 // runOps applies the history to h, consuming data; returns outputs and the data left. ok=false: malformed ops.
-func runOps(h hash.Hash, ops []string, data []byte) (outs []string, rest []byte, ok bool) {
-	for _, op := range ops {
+func runOps(m *mutLog, h hash.Hash, ops []string, data []byte) (outs []string, rest []byte, ok bool) {
+	rdArena := hx.NewArena()
+	rdBuf := rdArena.Out("rd", 1024)
+	for k, op := range ops {
 		var p string
 		switch {
 		case op == "s":
 			var out []byte
-			p = step(func() { out = h.Sum(nil) })
+			// Sum(b) appends to b: prefix and spare capacity vary; only the appended bytes may change
+			p = step(func() { out = m.sumInto([]byte("some-prefix")[:(k*3)%12], k%2 == 1, 64, h.Sum) })
 			if p == "" {
 				outs = append(outs, hx.Hex(out))
 			}
@@ -69,20 +73,33 @@ func runOps(h hash.Hash, ops []string, data []byte) (outs []string, rest []byte,
 			if !isR {
 				return nil, nil, false
 			}
-			buf := make([]byte, n)
+			var buf []byte
+			if n <= len(rdBuf) {
+				buf = rdBuf[:n:n]
+			} else {
+				buf = make([]byte, n)
+			}
+			for i := range buf {
+				buf[i] = byte(0x91 + i)
+			}
 			p = step(func() { rd.Read(buf) })
 			if p == "" {
 				outs = append(outs, hx.Hex(buf))
 			}
+			if r := rdArena.Check(); r != "-" {
+				m.add(r)
+			}
+			rdArena.Scribble()
 		case op[0] == 'w':
 			var n int
 			fmt.Sscanf(op[1:], "%d", &n)
 			if n > len(data) {
 				return nil, nil, false
 			}
-			chunk := data[:n]
+			chunk := data[:n:n]
 			data = data[n:]
-			p = step(func() { h.Write(chunk) })
+			// Write must neither modify nor retain its argument: the buffer is overwritten right afterwards
+			m.input("p", chunk, func(in []byte) { p = step(func() { h.Write(in) }) })
 		default:
 			return nil, nil, false
 		}
@@ -117,32 +134,46 @@ func exec(line string) string {
 	alg := o.Str("alg")
 	size := o.Int("size")
 	data := o.Hex("data")
+	var m mutLog
 	switch o.Cmd {
 	case "rt":
-		h1, err := newHash(alg, size, o.Hex("key"))
+		var h1 hash.Hash
+		var err error
+		m.input("key", o.Hex("key"), func(key []byte) { h1, err = newHash(alg, size, key) })
 		if err != nil {
 			return "bad-op"
 		}
 		pre, post := o.List("pre"), o.List("post")
-		outs0, _, ok := runOps(h1, pre, data)
+		outs0, _, ok := runOps(&m, h1, pre, data)
 		if !ok {
 			return "bad-op"
 		}
 		data = data[consumed(pre):]
-		m, err := h1.(encoding.BinaryMarshaler).MarshalBinary()
+		mb, err := h1.(encoding.BinaryMarshaler).MarshalBinary()
 		if err != nil {
-			return "pre:" + show(outs0) + " merr"
+			return "pre:" + show(outs0) + " merr mut=" + m.String()
 		}
+		saved := append([]byte(nil), mb...)
 		h2, _ := newHash(alg, size, nil)
-		if h2.(encoding.BinaryUnmarshaler).UnmarshalBinary(m) != nil {
-			return "pre:" + show(outs0) + " m:" + hx.Hex(m) + " uerr"
+		var uerr error
+		// the restored hash must not keep a reference to the marshaled bytes: they are overwritten after the call
+		m.input("state", saved, func(st []byte) { uerr = h2.(encoding.BinaryUnmarshaler).UnmarshalBinary(st) })
+		if uerr != nil {
+			return "pre:" + show(outs0) + " m:" + hx.Hex(saved) + " uerr mut=" + m.String()
 		}
-		o1, _, ok1 := runOps(h1, post, data)
-		o2, _, ok2 := runOps(h2, post, data)
+		o1, _, ok1 := runOps(&m, h1, post, data)
+		// MarshalBinary's result belongs to the caller: later Writes/Sums on the original must not change it
+		if !bytes.Equal(mb, saved) {
+			m.add("marshal.aliased")
+		}
+		for i := range mb {
+			mb[i] ^= 0xff
+		}
+		o2, _, ok2 := runOps(&m, h2, post, data)
 		if !ok1 || !ok2 {
 			return "bad-op"
 		}
-		return "pre:" + show(outs0) + " m:" + hx.Hex(m) + " a:" + show(o1) + " b:" + show(o2)
+		return "pre:" + show(outs0) + " m:" + hx.Hex(saved) + " a:" + show(o1) + " b:" + show(o2) + " mut=" + m.String()
 	case "um":
 		h, err := newHash(alg, size, nil)
 		if err != nil {
@@ -150,17 +181,22 @@ func exec(line string) string {
 		}
 		res := "ok"
 		var uerr error
-		if p := step(func() { uerr = h.(encoding.BinaryUnmarshaler).UnmarshalBinary(o.Hex("state")) }); p != "" {
-			return p
+		var p string
+		// UnmarshalBinary must neither modify nor retain its input (overwritten right after the call)
+		m.input("state", o.Hex("state"), func(st []byte) {
+			p = step(func() { uerr = h.(encoding.BinaryUnmarshaler).UnmarshalBinary(st) })
+		})
+		if p != "" {
+			return p + " mut=" + m.String()
 		}
 		if uerr != nil {
 			res = "err"
 		}
-		outs, _, ok := runOps(h, o.List("post"), data)
+		outs, _, ok := runOps(&m, h, o.List("post"), data)
 		if !ok {
 			return "bad-op"
 		}
-		return res + " " + show(outs)
+		return res + " " + show(outs) + " mut=" + m.String()
 	}
 	return "bad-op"
 }
